@@ -162,6 +162,32 @@ func (e *Engine) Resolve(ops []AnchOp, opts ...document.ResolutionOption) (View,
 	return e.Alpha_(rm, err), rm, err
 }
 
+// ResolveSplit is Resolve with some operations handed over through the AdditionalOperations resolution option
+// instead of the stores (extra[i] = true); published operations may in addition stay in the store (dup), in which
+// case the processor must recognise them by their canonical reference.
+func (e *Engine) ResolveSplit(ops []AnchOp, extra []bool, dup bool) (View, *protocol.ResolutionModel, error) {
+	pub := &wire.SliceStore{}
+	unpub := &wire.SliceStore{}
+	var additional []*operation.AnchoredOperation
+	for i, a := range ops {
+		op := e.Anchored(a)
+		if extra[i] {
+			additional = append(additional, op)
+			if !(dup && a.Pub) {
+				continue
+			}
+		}
+		if a.Pub {
+			pub.Ops = append(pub.Ops, e.Anchored(a))
+		} else {
+			unpub.Ops = append(unpub.Ops, op)
+		}
+	}
+	p := processor.New("verif", pub, e.PC, processor.WithUnpublishedOperationStore(unpub))
+	rm, err := p.Resolve(e.Suffix, document.WithAdditionalOperations(additional))
+	return e.Alpha_(rm, err), rm, err
+}
+
 // Alpha_ abstracts a real resolution result.
 func (e *Engine) Alpha_(rm *protocol.ResolutionModel, err error) View {
 	if err != nil || rm == nil {
